@@ -2,6 +2,7 @@ package rules
 
 import (
 	"go/token"
+	"strings"
 
 	"golang.org/x/tools/go/ssa"
 
@@ -39,6 +40,15 @@ func ruleAddOnlyAbsentTags(c *eng.Ctx) {
 		}
 		return true, op == token.EQL
 	})
+	// … or a membership test of the tag list written as a call: slices.Contains(sn.Tags, t), sn.hasTag(t)
+	for _, call := range eng.Calls(fn) {
+		name := c.P.CalleeName(call)
+		isMember := name == "internal/data.(*Snapshot).hasTag" ||
+			(strings.HasPrefix(name, "slices.Contains") && mentionsFieldDeepArgs(eng.Arg(call, 0), tagsF))
+		if isMember && call.Value() != nil {
+			equal = append(equal, eng.BoolEdges(fn, eng.SameAs(call.Value()), true)...)
+		}
+	}
 	// outermost loop header
 	var header *ssa.BasicBlock
 	for _, b := range fn.Blocks {
@@ -63,4 +73,62 @@ func ruleAddOnlyAbsentTags(c *eng.Ctx) {
 	c.Check(ok, rule, "AddTags:equal-tag-found→not-appended", appends[0].Pos(), "after an existing tag compared equal the tag is not appended (the next tag to add is taken up instead)")
 	// and the append is reached only after the inner loop over the existing tags ended
 	c.Check(len(appends) == 1, rule, "AddTags:one-append", fn.Pos(), "one store to Snapshot.Tags in AddTags (%d)", len(appends))
+}
+
+// ruleRemoveEveryOccurrence (C25, "no tag of R" — also for snapshots that carry a tag twice):
+// RemoveTags looks at every tag of the snapshot for each tag to remove. From the edge on which a
+// tag compared equal to the one to remove, the scan over the snapshot's tags goes on: neither
+// the next tag to remove nor the end of the function is reached without passing the inner
+// loop's header again (genuine defect, fixed: a `break` after the first match left the second
+// `a` of [a, a] in place).
+func ruleRemoveEveryOccurrence(c *eng.Ctx) {
+	const rule = "remove-every-occurrence"
+	fn := c.NeedFn(rule, "internal/data.(*Snapshot).RemoveTags")
+	if fn == nil {
+		return
+	}
+	equal := eng.CmpEdges(fn, func(op token.Token, x, y ssa.Value) (bool, bool) {
+		if (op != token.EQL && op != token.NEQ) || x.Type().String() != "string" || y.Type().String() != "string" {
+			return false, false
+		}
+		return true, op == token.EQL
+	})
+	var headers []*ssa.BasicBlock
+	for _, b := range fn.Blocks {
+		for _, p := range b.Preds {
+			if b.Dominates(p) {
+				headers = append(headers, b)
+				break
+			}
+		}
+	}
+	if len(equal) == 0 || len(headers) < 2 {
+		c.Unk(rule, "RemoveTags:shape", fn.Pos(), "expected a comparison of tags inside two nested loops, found %d comparisons and %d loops", len(equal), len(headers))
+		return
+	}
+	for _, e := range equal {
+		cmpBlock := fn.Blocks[e[0]]
+		var inner, outer *ssa.BasicBlock
+		for _, h := range headers {
+			if h.Dominates(cmpBlock) || h == cmpBlock {
+				if inner == nil || inner.Dominates(h) {
+					inner = h
+				}
+			}
+		}
+		for _, h := range headers {
+			if inner != nil && h != inner && h.Dominates(inner) && (outer == nil || outer.Dominates(h)) {
+				outer = h
+			}
+		}
+		if inner == nil || outer == nil || len(inner.Instrs) == 0 || len(outer.Instrs) == 0 {
+			c.Unk(rule, "RemoveTags:loops", fn.Pos(), "the loops around the tag comparison were not identified")
+			continue
+		}
+		again := eng.NewCut().AddInstrs(inner.Instrs[0])
+		c.MustPass(rule, "RemoveTags:match→scan-goes-on", eng.EdgeStart(fn, e), outer.Instrs[0], again, "the scan over the snapshot's tags continues after a removal")
+		for _, r := range eng.Returns(fn) {
+			c.MustPass(rule, "RemoveTags:match→scan-goes-on", eng.EdgeStart(fn, e), r, again, "the scan over the snapshot's tags continues after a removal")
+		}
+	}
 }
